@@ -132,9 +132,9 @@ template<int D>
 void run_view(Input const& in, Ctx& ctx) {
 	long e[D]; long n = 1; for(int k = 0; k < D; ++k) { e[k] = 1 + static_cast<long>(in.head(2 + k) % 4U); n *= e[k]; }
 	int const arch = static_cast<int>(in.head(6) % 3U);
-	int const ksave = 1 + static_cast<int>(in.head(7) % 6U);
+	int const ksave = (in.head(7) % 9U) == 0 ? static_cast<int>(vp::ops::K_REF) : vp::ops::kLayoutKinds[(in.head(7) % 9U) - 1];
 	// an array_ref is archived as one flat block (its own format): it is loaded back into an array_ref; views interchange among all view layouts
-	int const kload = ksave == vp::ops::K_REF ? static_cast<int>(vp::ops::K_REF) : 2 + static_cast<int>(in.head(8) % 5U);
+	int const kload = ksave == vp::ops::K_REF ? static_cast<int>(vp::ops::K_REF) : vp::ops::kLayoutKinds[in.head(8) % 8U];
 	unsigned const salt = in.head(9);
 	static char const* const an[] = {"text", "binary", "xml"};
 	ctx.desc << "view<int," << D << ">("; for(int k = 0; k < D; ++k) { ctx.desc << (k ? "x" : "") << e[k]; } ctx.desc << ") " << an[arch] << " save from " << vp::ops::kind_name[ksave] << ", load into " << vp::ops::kind_name[kload];
